@@ -6,11 +6,11 @@ from ..e1 import engine, gen, ref, reduce, oracles
 
 RULE = ("programs drawn shape-first (chain/tree/comb/diamond/re-entry comb/staggered/free-form) and decorated; "
         "non-trivial = at least 2 tasks, at least 1 batch flush, and (a nested yield structure, or >= 2 batch kinds, or a shared/re-yielded future); "
-        "distinct = distinct program JSON. Library tools (deduplicate, alru_cache, async generators, amap/afilter/asorted/amin/amax, aretry, call_with_context) occur as leaves.")
+        "distinct = distinct program JSON. Futures whose value is an exception instance occur as leaves (the value must be delivered, not raised). Library tools (deduplicate, alru_cache, async generators, amap/afilter/asorted/amin/amax, aretry, call_with_context) occur as leaves.")
 ASSUMPTIONS = ["item values are a function of (kind, argument) only, so every flush order must give the same answer",
                "flush orders are steered through get_priority tables (a superset of what the default tie-break can produce for batches of different kinds)"]
 
-CFG = dict(sync=True, shared_lazy=1, premade=True, tools=("dd", "alru", "agen", "amap", "asorted", "amin", "amax", "afilter", "retry", "cwc"),  ctx=("rec", "ov"), dag=True, orphans=True, reyield=True, itemvalue=True, convs=("call", "value", "wrapper"),
+CFG = dict(sync=True, shared_lazy=1, premade=True, tools=("dd", "alru", "agen", "amap", "asorted", "amin", "amax", "afilter", "retry", "cwc"),  ctx=("rec", "ov"), dag=True, orphans=True, reyield=True, itemvalue=True, excval=True, convs=("call", "value", "wrapper"),
            shapes=("chain", "tree", "comb", "diamond", "reentry", "stagger", "free", "free"))
 
 
@@ -84,6 +84,7 @@ def check(prog, ctx):
     ctx.label("sync-reentry", st["ops"].get("sync", 0) > 0)
     ctx.label("shared-or-reyielded", st["leaves"].get("ref", 0) > 0)
     ctx.label("same-object-yielded-again", st["ops"].get("reyield", 0) > 0)
+    ctx.label("exception-instance-as-a-future's-value", st["leaves"].get("excval", 0) > 0)
     ctx.label("outcome=" + env.outcome[0])
     ctx.nontrivial(prog, st["tasks"] >= 2 and nflush >= 1 and (st["nested"] or st["kinds"] >= 2 or st["leaves"].get("ref", 0) > 0))
     return viol
